@@ -865,14 +865,21 @@ let model_posts (pre : istate) (label : sx) (post : istate option) dl : (unit ->
          | _ -> [ 0 ])
       | _ -> [ 0 ] in
     let starts = match c with CtlTx i when budget <> "all" -> tx_orders w0 i | _ -> [ w0 ] in
+    (* budget: "all" | "<n>" (stopped before its n+1-th store/device call) | "f<n>" (gave up after n calls because a read
+       failed or a write was refused: if that write was a configuration write, its path values may already be stored -
+       the store writes them before the version-checked entry, see the open finding F-08) *)
+    let faulty = String.length budget > 1 && budget.[0] = 'f' in
+    let nbudget = if budget = "all" then -1 else int_of_string (if faulty then String.sub budget 1 (String.length budget - 1) else budget) in
     List.concat_map (fun w1 ->
-      List.map (fun ch () ->
+      List.concat_map (fun ch ->
         let o = oracle_of pre label dl ch in
         let effs, _res = p2_reconcile o w1 c in
-        let k = if budget = "all" then List.length effs else prefix_for_calls effs (int_of_string budget) in
+        let k0 = if budget = "all" then List.length effs else prefix_for_calls effs nbudget in
+        let ks = if faulty && k0 < List.length effs && (match List.nth effs k0 with EPutValues _ | EPutAValues _ -> true | _ -> false) then [ k0; k0 + 1 ] else [ k0 ] in
+        List.map (fun k () ->
         (* the permuted transaction record is only a device to pick the order: the result is compared on the
            canonical form, which sorts the targets of a change *)
-        (p2_step w1 (LRec (c, nat_of_int k, o)), Printf.sprintf "k=%d/%d" k (List.length effs))) choices) starts
+        (p2_step w1 (LRec (c, nat_of_int k, o)), Printf.sprintf "k=%d/%d" k (List.length effs))) ks) choices) starts
   | None ->
     (match lst label with
      | [ A "connup"; c; t ] -> [ fun () -> (p2_step w0 (LConnUp (num c, num t)), "") ]
@@ -962,7 +969,16 @@ let label_name (label : sx) = match lst label with
    chunkSize = 100000; proved for the model in Proofs/P2_Chunks.v): every chunk non-empty, all but the last exactly
    chunkSize, the last at most chunkSize, ceil(len/chunkSize) chunks *)
 let c05_chunk_size = 100000
-let c05_check_chunks hid (streams : string) =
+let c05_check_chunks ?(shas = "") ?(expect = "-") hid (streams : string) =
+  (* the bytes the plugin judged are the bytes of the document that was built (digests of both) *)
+  if expect <> "-" && expect <> "" then begin
+    let want = String.split_on_char ';' expect in
+    List.iteri (fun k d ->
+      stat "c05.stream_digests_compared";
+      if not (List.mem d want) then
+        specviol hid "c05_chunking" (Printf.sprintf "validation stream %d: the chunks do not reassemble to the document that was built (digest %s, expected one of %s)" k d expect))
+      (String.split_on_char ';' shas)
+  end;
   if streams <> "none" then
     List.iteri (fun k st ->
       let sizes = if st = "-" || st = "" then [] else List.map int_of_string (String.split_on_char ',' st) in
@@ -1049,5 +1065,6 @@ let () =
          sample (Printf.sprintf "history %s (%s): %d transactions, %d targets, %d crashed reconciles, %s steps; final states: %s" hid h.kind ntx (List.length (w_targets st.w)) h.crashes steps
                    (String.concat "," (List.map (fun (i, t) -> Printf.sprintf "%d:%s" i (s_ts t.t_state)) (txs_of st.w))))
        | None -> ())
+    | "p2.chunks" :: hid :: streams :: shas :: expect :: _ -> c05_check_chunks ~shas ~expect hid streams
     | "p2.chunks" :: hid :: streams :: _ -> c05_check_chunks hid streams
     | _ -> stat "ignored")
